@@ -2137,7 +2137,7 @@ func runCase(rt *rapid.T) {
 }
 
 func TestC07(t *testing.T) {
-	evid.Rule("C07: G in 2..32 goroutines (four size buckets) released by one barrier, each running 1-8 operations through ONE shared *gorm.DB (the opened handle, or one derived from it before the barrier: Session{}, WithContext, Session{NewDB}, a conditioned handle; in two thirds of the cases also a second shared Session handle that already carries 0-3 Where conditions, 0-7 Order columns and possibly Select/Joins/Preload, from which goroutines derive chains that add one more Order/Where/Select/Omit/Limit/Clauses/Joins/Preload/Not-Or before finishing) on explicit keys private to the goroutine. Operations: Create (single, []T, []*T 2-6 rows, nested associations, maps, []map, CreateInBatches, OnConflict), Save, FirstOrInit/FirstOrCreate with struct Attrs / map Assign, Find (chain and inline conditions, struct conditions of the model's and of a foreign type, smaller destination struct, Scopes, Not/Or groups, Distinct/Limit/Offset, Group/Having into maps, sub-query built from the shared handle), First/Take/Last, FindInBatches, Count, Pluck, Row, Rows+ScanRows, Raw.Scan, Exec, ToSQL, Preload incl. nested, relation Joins, Update/Updates (map, struct)/UpdateColumn(s), clause.Returning on update and delete, Delete (key, range, Unscoped, Select(clause.Associations)), Set/Get/InstanceSet/InstanceGet, Migrator HasTable/HasColumn (also through Table()), Transaction blocks (nested, rollback), manual Begin/SavePoint/RollbackTo/Commit, Connection blocks, Association Append/Replace/Delete/Clear/Find/Count, statements that cannot be prepared (Raw/Table/Exec on a missing table, a missing column; three texts each, shared by all goroutines), column names in five spellings for Select/Omit/Updates(map)/Where(map)/Pluck; a quarter of the plain operations run on a per-call Session with SkipHooks/QueryFields/FullSaveAssociations/NewDB/Context/SkipDefaultTransaction/DryRun/CreateBatchSize/Debug. Models: a cyclic family of six related types (belongs-to, has-one, has-many, many-to-many), a second family (one target type with four has-many/has-one owner types), two relation-free types with a json serializer field, a Valuer/Scanner type, an embedded struct, tracked times, soft delete and hook methods. In a third of the cases all goroutines start with the same statement text (failing or good). Schema cache cold / one type parsed / only the shared target type parsed and queried (owners first used concurrently) / all parsed / all queried before the barrier; PrepareStmt off / Config.PrepareStmt / db.Session(&gorm.Session{PrepareStmt: true}) derived per call or once per goroutine; Config switches QueryFields, CreateBatchSize, FullSaveAssociations, TranslateError, PropagateUnscoped, an Info-level Logger, a NameReplacer naming strategy, a dialector without RETURNING, a Plugin registering callbacks (with Match) in every processor; default transactions on/off; pool unbounded or 1/2/4; GOMAXPROCS 1/2/4/default; generated Gosched points. Judged by the race detector (report count read after every case), by equality of every result (error texts, recovered panics included) and of all final rows with a serial run on a fresh database, and by a deadlock watchdog. Non-trivial = part of the schema cache is cold at the barrier (G >= 2 always), or warm cache with >= 4 goroutines and >= 1 association/preload/joins/nested-create operation; distinct = configuration + programs")
+	evid.Rule("C07: G in 2..32 goroutines (four size buckets) released by one barrier, each running 1-8 operations through ONE shared *gorm.DB (the opened handle, or one derived from it before the barrier: Session{}, WithContext, Session{NewDB}, a conditioned handle; in two thirds of the cases also a second shared Session handle that already carries 0-3 Where conditions, 0-7 Order columns and possibly Select/Joins/Preload, from which goroutines derive chains that add one more Order/Where/Select/Omit/Limit/Clauses/Joins/Preload/Not-Or before finishing) on explicit keys private to the goroutine. Operations: Create (single, []T, []*T 2-6 rows, nested associations, maps, []map, CreateInBatches, OnConflict), Save, FirstOrInit/FirstOrCreate with struct Attrs / map Assign, Find (chain and inline conditions, struct conditions of the model's and of a foreign type, smaller destination struct, Scopes, Not/Or groups, Distinct/Limit/Offset, Group/Having into maps, sub-query built from the shared handle), First/Take/Last, FindInBatches, Count, Pluck, Row, Rows+ScanRows, Raw.Scan, Exec, ToSQL, Preload incl. nested, relation Joins, Update/Updates (map, struct)/UpdateColumn(s), clause.Returning on update and delete, Delete (key, range, Unscoped, Select(clause.Associations)), Set/Get/InstanceSet/InstanceGet, Migrator HasTable/HasColumn (also through Table()), Transaction blocks (nested, rollback), manual Begin/SavePoint/RollbackTo/Commit, Connection blocks, Association Append/Replace/Delete/Clear/Find/Count, statements that cannot be prepared (Raw/Table/Exec on a missing table, a missing column; three texts each, shared by all goroutines), column names in five spellings for Select/Omit/Updates(map)/Where(map)/Pluck; a quarter of the plain operations run on a per-call Session with SkipHooks/QueryFields/FullSaveAssociations/NewDB/Context/SkipDefaultTransaction/DryRun/CreateBatchSize/Debug. Models: a cyclic family of six related types (belongs-to, has-one, has-many, many-to-many), a second family (one target type with four has-many/has-one owner types), three mutually unrelated many-to-many families (on a cold handle first used by different goroutines at the barrier), two relation-free types with a json serializer field, a field type that is its own stateful serializer, a Valuer/Scanner type, an embedded struct, tracked times, soft delete and hook methods. In a third of the cases all goroutines start with the same statement text (failing or good). Schema cache cold / one type parsed / only the shared target type parsed and queried (owners first used concurrently) / all parsed / all queried before the barrier; PrepareStmt off / Config.PrepareStmt / db.Session(&gorm.Session{PrepareStmt: true}) derived per call or once per goroutine; Config switches QueryFields, CreateBatchSize, FullSaveAssociations, TranslateError, PropagateUnscoped, an Info-level Logger, a NameReplacer naming strategy, a dialector without RETURNING, a Plugin registering callbacks (with Match) in every processor; default transactions on/off; pool unbounded or 1/2/4; GOMAXPROCS 1/2/4/default; generated Gosched points. Judged by the race detector (report count read after every case), by equality of every result (error texts, recovered panics included) and of all final rows with a serial run on a fresh database, and by a deadlock watchdog. Non-trivial = part of the schema cache is cold at the barrier (G >= 2 always), or warm cache with >= 4 goroutines and >= 1 association/preload/joins/nested-create operation; distinct = configuration + programs")
 	evid.Assume("SQLite's single-writer rule is hidden by the harness: connections run read_uncommitted and writers queue on one harness mutex (BEGIN..COMMIT or one autocommit write); write paths of two goroutines therefore overlap only outside transactions (SkipDefaultTransaction cases)")
 	evid.Assume("the runtime's schedule is sampled, not enumerated; the race detector reports unsynchronised conflicting accesses it observes within its history window")
 	if !raceEnabled {
